@@ -89,8 +89,12 @@ def one_case(ctx, index, rng: random.Random):
     elif mode == "min_frequency":
         kw["min_frequency"] = rng.choice([0, 0.5, 1, 2, 5, float(h.total) / 2, float(h.total) + 1])
     else:
-        amount = rng.choice([2.5, 0, -2, 1.5])
+        # also amounts that are almost, but not, integers (0.3 / 0.1, one ulp above 2): non-integral all the same
+        amount = rng.choice([2.5, 0, -2, 1.5, 0.3 / 0.1, float(np.nextafter(2.0, 3.0)), 4 - 1e-12, float(np.nextafter(1.0, 0.0)), 2 + 1e-10])
     target = h.copy() if inplace else h
+    with attach.quiet():
+        for b_ in target.binnings:
+            gen.touch_binning(rng, b_)  # a tolerant predicate read earlier must not decide an exact question later
     desc = {"d": d, "kind": kind, "shape": shape, "amount": amount, **{k: v for k, v in kw.items()}}
     try:
         with warnings.catch_warnings():
